@@ -489,3 +489,208 @@ Proof.
          end.
   exists gt, vs, c, s. split; [reflexivity|]. split; [exact En|]. split; [exact Em|exact H].
 Qed.
+
+(* ------------------------------------------------------------------ *)
+(* the statements of Prop_C12_pipeline.v                               *)
+(* ------------------------------------------------------------------ *)
+Lemma pl_step_err t : pl_step FrErr t = FrErr /\ pl_step FrCrash t = FrCrash /\ pl_step FrOutside t = FrOutside.
+Proof. repeat split. Qed.
+Lemma pl_chain_ok_start : forall ts start n F, pl_chain start ts = FrOk n F -> exists n0 F0, start = FrOk n0 F0.
+Proof.
+  unfold pl_chain. induction ts as [|t ts IH]; intros start n F H; cbn [fold_left] in H.
+  - now exists n, F.
+  - destruct (IH _ _ _ H) as (n1 & F1 & E). destruct start as [n0 F0| | |]; cbn [pl_step] in E; try discriminate.
+    now exists n0, F0.
+Qed.
+
+(* the output options a command line selects *)
+Definition plt_cnf_opts (argv : list string) : option plt_opts :=
+  match plt_parse_chunks (pl_chunks_of argv) with PlOk x => Some (plt_ho (fst x)) | _ => None end.
+Definition plt_pb_opts (argv : list string) : option plt_opts :=
+  match plt_pb_parse argv with PlOk h => Some (plt_ho h) | _ => None end.
+
+(* [plt_cnf_run argv name toks g ts n0 n F]: the parsers of cnfgen read argv as the sub-command g (formula name [name],
+   followed by the tokens [toks]) and the transformations ts; g builds a formula with n0 variables; the chain of
+   transformations, left to right, gives the formula (n, F) that reaches the writer; its literals are within 1..n *)
+Definition plt_cnf_run (argv : list string) (name : text) (toks : list text) (g : pl_fcmd) (ts : list pl_tcmd) (n0 n : Z) (F : cnf) : Prop :=
+  exists h targs F0,
+    plt_parse_chunks (pl_chunks_of argv) = PlOk (h, targs) /\ plt_hgen h = Some g /\ plt_hname h = name /\ plt_htoks h = toks /\
+    pl_parse_formula name toks = PlOk g /\ pl_all_some targs = Some ts /\
+    pl_build g = FrOk n0 F0 /\ pl_chain (pl_build g) ts = FrOk n F /\
+    pl_run_with pl_build (plt_cmdline_of (h, targs)) = FrOk n F /\ 0 <= n /\ lits_in_range n F = true.
+
+(* [plt_pb_run argv name toks g n l]: the parser of pbgen reads argv as the sub-command g, whose builder calls are l on n variables *)
+Definition plt_pb_run (argv : list string) (name : text) (toks : list text) (g : pl_fcmd) (n : Z) (l : list ir) : Prop :=
+  exists h, plt_pb_parse argv = PlOk h /\ plt_hgen h = Some g /\ plt_hname h = name /\ plt_htoks h = toks /\
+            pl_parse_formula name toks = PlOk g /\ plb_ir_of g = IrOk n l /\ 0 <= n /\ lits_bounded n l.
+
+Lemma plt_cnf_view_run version argv j (V : plt_cnf_view version argv j) :
+  exists n0, plt_cnf_run argv (plt_hname (pcv_head _ _ _ V)) (plt_htoks (pcv_head _ _ _ V)) (pcv_g _ _ _ V) (pcv_ts _ _ _ V) n0 (pcv_n _ _ _ V) (pcv_F _ _ _ V) /\
+             (match pl_build (pcv_g _ _ _ V) with FrOk m _ => m | _ => 0 end) = n0.
+Proof.
+  destruct (pl_chain_ok_start _ _ _ _ (pcv_chain _ _ _ V)) as (n0 & F0 & E0). exists n0. split; [|now rewrite E0].
+  exists (pcv_head _ _ _ V), (pcv_targs _ _ _ V), F0.
+  repeat split; try reflexivity; try exact E0.
+  - exact (pcv_parse _ _ _ V).
+  - exact (pcv_gen _ _ _ V).
+  - exact (pcv_cmd _ _ _ V).
+  - exact (pcv_all _ _ _ V).
+  - exact (pcv_chain _ _ _ V).
+  - exact (pcv_run _ _ _ V).
+  - exact (pcv_nonneg _ _ _ V).
+  - exact (pcv_range _ _ _ V).
+Qed.
+
+Lemma plt_cnf_opts_view version argv j (V : plt_cnf_view version argv j) o : plt_cnf_opts argv = Some o -> o = plt_ho (pcv_head _ _ _ V).
+Proof. unfold plt_cnf_opts. rewrite (pcv_parse _ _ _ V). cbn [fst]. intros H. now inversion H. Qed.
+Lemma plt_pb_opts_view version argv j (V : plt_pb_view version argv j) o : plt_pb_opts argv = Some o -> o = plt_ho (ppv_head _ _ _ V).
+Proof. unfold plt_pb_opts. rewrite (ppv_parse _ _ _ V). intros H. now inversion H. Qed.
+
+Lemma plt_header_choice_some q (d : option string) (mk : string -> Dimacs.header) hh x :
+  plt_header_choice q (option_map mk d) = Some hh -> d = Some x -> hh = if q then None else Some (mk x).
+Proof. intros H ->. unfold plt_header_choice in H. destruct q; cbn in H; now inversion H. Qed.
+
+(* LaTeX, cnfgen *)
+Theorem cnfgen_tex_latex version argv doc o : cnfgen_main_tex version argv = POut doc ->
+  plt_cnf_opts argv = Some o -> plt_format o = FmtLatex ->
+  exists name toks g ts n0 n F d,
+    plt_cnf_run argv name toks g ts n0 n F /\ plt_fdesc name toks g = Some d /\
+    plt_latex_says doc (lit d) (if plt_quiet o then None else Some (plt_header version argv d ts))
+                   (map lit (plt_labels plt_x_ g n0 ts)) (FCnf n F).
+Proof.
+  unfold cnfgen_main_tex. intros H Eo Ef. destruct (plt_emit_out_job _ _ H) as (j & Ej). rewrite Ej in H.
+  pose proof (plt_cnf_job_view _ _ _ Ej) as V. pose proof (plt_cnf_opts_view _ _ _ V o Eo) as Eo'.
+  assert (Ef' : plt_format (plt_jo j) = FmtLatex) by (rewrite (pcv_opts _ _ _ V), <- Eo'; exact Ef).
+  destruct (plt_emit_latex j doc H Ef') as (title & Et & S).
+  destruct (plt_cnf_view_run _ _ _ V) as (n0 & R & En0).
+  rewrite (pcv_title _ _ _ V) in Et.
+  destruct (plt_fdesc (plt_hname (pcv_head _ _ _ V)) (plt_htoks (pcv_head _ _ _ V)) (pcv_g _ _ _ V)) as [d|] eqn:Ed; [|discriminate].
+  cbn [option_map] in Et. inversion Et; subst title.
+  exists (plt_hname (pcv_head _ _ _ V)), (plt_htoks (pcv_head _ _ _ V)), (pcv_g _ _ _ V), (pcv_ts _ _ _ V), n0, (pcv_n _ _ _ V), (pcv_F _ _ _ V), d.
+  split; [exact R|]. split; [exact Ed|].
+  pose proof (pcv_header _ _ _ V) as Eh. rewrite Ed in Eh.
+  pose proof (plt_header_choice_some _ (Some d) (fun d => plt_header version argv d (pcv_ts _ _ _ V)) _ d Eh eq_refl) as Ehh.
+  assert (Nn : plt_needs_names (plt_ho (pcv_head _ _ _ V)) = true) by (unfold plt_needs_names; rewrite <- Eo', Ef; reflexivity).
+  pose proof (pcv_names _ _ _ V Nn) as En. rewrite En0 in En. unfold plt_dflt in En. rewrite <- Eo', Ef in En.
+  rewrite <- (pcv_form _ _ _ V), <- En, Eo', <- Ehh. exact S.
+Qed.
+
+(* LaTeX, pbgen *)
+Theorem pbgen_tex_latex version argv doc o : pbgen_main_tex version argv = POut doc ->
+  plt_pb_opts argv = Some o -> plt_format o = FmtLatex ->
+  exists name toks g n l d,
+    plt_pb_run argv name toks g n l /\ plt_fdesc name toks g = Some d /\
+    plt_latex_says doc (lit d) (if plt_quiet o then None else Some (plt_pb_header version argv d))
+                   (map lit (plt_labels plt_x_ g n [])) (FOpb n (to_opb l)).
+Proof.
+  unfold pbgen_main_tex. intros H Eo Ef. destruct (plt_emit_out_job _ _ H) as (j & Ej). rewrite Ej in H.
+  pose proof (plt_pb_job_view _ _ _ Ej) as V. pose proof (plt_pb_opts_view _ _ _ V o Eo) as Eo'.
+  assert (Ef' : plt_format (plt_jo j) = FmtLatex) by (rewrite (ppv_opts _ _ _ V), <- Eo'; exact Ef).
+  destruct (plt_emit_latex j doc H Ef') as (title & Et & S).
+  rewrite (ppv_title _ _ _ V) in Et.
+  destruct (plt_fdesc (plt_hname (ppv_head _ _ _ V)) (plt_htoks (ppv_head _ _ _ V)) (ppv_g _ _ _ V)) as [d|] eqn:Ed; [|discriminate].
+  cbn [option_map] in Et. inversion Et; subst title.
+  exists (plt_hname (ppv_head _ _ _ V)), (plt_htoks (ppv_head _ _ _ V)), (ppv_g _ _ _ V), (ppv_n _ _ _ V), (ppv_l _ _ _ V), d.
+  split.
+  { exists (ppv_head _ _ _ V).
+    exact (conj (ppv_parse _ _ _ V) (conj (ppv_gen _ _ _ V) (conj eq_refl (conj eq_refl (conj (ppv_cmd _ _ _ V)
+          (conj (ppv_ir _ _ _ V) (conj (ppv_nonneg _ _ _ V) (ppv_bounded _ _ _ V)))))))). }
+  split; [exact Ed|].
+  pose proof (ppv_header _ _ _ V) as Eh. rewrite Ed in Eh.
+  pose proof (plt_header_choice_some _ (Some d) (fun d => plt_pb_header version argv d) _ d Eh eq_refl) as Ehh.
+  assert (Nn : plt_needs_names (plt_ho (ppv_head _ _ _ V)) = true) by (unfold plt_needs_names; rewrite <- Eo', Ef; reflexivity).
+  pose proof (ppv_names _ _ _ V Nn) as En. unfold plt_dflt in En. rewrite <- Eo', Ef in En.
+  rewrite <- (ppv_form _ _ _ V), <- En, Eo', <- Ehh. exact S.
+Qed.
+
+(* --varnames, DIMACS *)
+Theorem cnfgen_tex_varnames version argv t o : cnfgen_main_tex version argv = POut t ->
+  plt_cnf_opts argv = Some o -> plt_format o = FmtDimacs -> plt_varnames o = true ->
+  exists name toks g ts n0 n F hh,
+    plt_cnf_run argv name toks g ts n0 n F /\
+    plt_header_choice (plt_quiet o) (option_map (fun d => plt_header version argv d ts) (plt_fdesc name toks g)) = Some hh /\
+    plt_dimacs_names_say t hh (map lit (plt_labels plt_x g n0 ts)) n F.
+Proof.
+  unfold cnfgen_main_tex. intros H Eo Ef Ev. destruct (plt_emit_out_job _ _ H) as (j & Ej). rewrite Ej in H.
+  pose proof (plt_cnf_job_view _ _ _ Ej) as V. pose proof (plt_cnf_opts_view _ _ _ V o Eo) as Eo'.
+  assert (Ef' : plt_format (plt_jo j) = FmtDimacs) by (rewrite (pcv_opts _ _ _ V), <- Eo'; exact Ef).
+  assert (Ev' : plt_varnames (plt_jo j) = true) by (rewrite (pcv_opts _ _ _ V), <- Eo'; exact Ev).
+  destruct (plt_emit_dimacs_names j t (plt_cnf_view_valid _ _ _ V) H Ef' Ev') as (n & F & Efm & _ & S).
+  destruct (plt_cnf_view_run _ _ _ V) as (n0 & R & En0).
+  rewrite (pcv_form _ _ _ V) in Efm. inversion Efm; subst n F.
+  exists (plt_hname (pcv_head _ _ _ V)), (plt_htoks (pcv_head _ _ _ V)), (pcv_g _ _ _ V), (pcv_ts _ _ _ V), n0, (pcv_n _ _ _ V), (pcv_F _ _ _ V), (plt_jheader j).
+  split; [exact R|]. split; [rewrite Eo'; exact (pcv_header _ _ _ V)|].
+  assert (Nn : plt_needs_names (plt_ho (pcv_head _ _ _ V)) = true) by (unfold plt_needs_names; rewrite <- Eo', Ef; exact Ev).
+  pose proof (pcv_names _ _ _ V Nn) as En. rewrite En0 in En. unfold plt_dflt in En. rewrite <- Eo', Ef in En.
+  rewrite <- En. exact S.
+Qed.
+
+(* --varnames, OPB (both tools) *)
+Theorem cnfgen_tex_varnames_opb version argv t o : cnfgen_main_tex version argv = POut t ->
+  plt_cnf_opts argv = Some o -> plt_format o = FmtOpb -> plt_varnames o = true ->
+  exists name toks g ts n0 n F hh,
+    plt_cnf_run argv name toks g ts n0 n F /\
+    plt_header_choice (plt_quiet o) (option_map (fun d => plt_header version argv d ts) (plt_fdesc name toks g)) = Some hh /\
+    let names := map lit (plt_labels plt_x g n0 ts) in
+    t = print_opb hh (Some names) (FCnf n F) /\ len names = n /\
+    (printable n -> printable (len F) -> parse_opb t = OOk n (map clause_pbc F)).
+Proof.
+  unfold cnfgen_main_tex. intros H Eo Ef Ev. destruct (plt_emit_out_job _ _ H) as (j & Ej). rewrite Ej in H.
+  pose proof (plt_cnf_job_view _ _ _ Ej) as V. pose proof (plt_cnf_opts_view _ _ _ V o Eo) as Eo'.
+  assert (Ef' : plt_format (plt_jo j) = FmtOpb) by (rewrite (pcv_opts _ _ _ V), <- Eo'; exact Ef).
+  assert (Ev' : plt_varnames (plt_jo j) = true) by (rewrite (pcv_opts _ _ _ V), <- Eo'; exact Ev).
+  destruct (plt_emit_opb_names j t (plt_cnf_view_valid _ _ _ V) H Ef' Ev') as (Et & El & RB).
+  destruct (plt_cnf_view_run _ _ _ V) as (n0 & R & En0).
+  exists (plt_hname (pcv_head _ _ _ V)), (plt_htoks (pcv_head _ _ _ V)), (pcv_g _ _ _ V), (pcv_ts _ _ _ V), n0, (pcv_n _ _ _ V), (pcv_F _ _ _ V), (plt_jheader j).
+  split; [exact R|]. split; [rewrite Eo'; exact (pcv_header _ _ _ V)|].
+  assert (Nn : plt_needs_names (plt_ho (pcv_head _ _ _ V)) = true) by (unfold plt_needs_names; rewrite <- Eo', Ef; exact Ev).
+  pose proof (pcv_names _ _ _ V Nn) as En. rewrite En0 in En. unfold plt_dflt in En. rewrite <- Eo', Ef in En.
+  cbv zeta. rewrite <- En. rewrite (pcv_form _ _ _ V) in Et, El, RB. cbn [numvar constraints] in El, RB.
+  split; [exact Et|]. split; [exact El|]. intros P1 P2. apply RB. now apply cnf_opb_printable.
+Qed.
+
+Theorem pbgen_tex_varnames version argv t o : pbgen_main_tex version argv = POut t ->
+  plt_pb_opts argv = Some o -> plt_format o = FmtOpb -> plt_varnames o = true ->
+  exists name toks g n l hh,
+    plt_pb_run argv name toks g n l /\
+    plt_header_choice (plt_quiet o) (option_map (fun d => plt_pb_header version argv d) (plt_fdesc name toks g)) = Some hh /\
+    let names := map lit (plt_labels plt_x g n []) in
+    t = print_opb hh (Some names) (FOpb n (to_opb l)) /\ len names = n /\
+    (opb_printable (FOpb n (to_opb l)) -> parse_opb t = OOk n (to_opb l)).
+Proof.
+  unfold pbgen_main_tex. intros H Eo Ef Ev. destruct (plt_emit_out_job _ _ H) as (j & Ej). rewrite Ej in H.
+  pose proof (plt_pb_job_view _ _ _ Ej) as V. pose proof (plt_pb_opts_view _ _ _ V o Eo) as Eo'.
+  assert (Ef' : plt_format (plt_jo j) = FmtOpb) by (rewrite (ppv_opts _ _ _ V), <- Eo'; exact Ef).
+  assert (Ev' : plt_varnames (plt_jo j) = true) by (rewrite (ppv_opts _ _ _ V), <- Eo'; exact Ev).
+  destruct (plt_emit_opb_names j t (plt_pb_view_valid _ _ _ V) H Ef' Ev') as (Et & El & RB).
+  exists (plt_hname (ppv_head _ _ _ V)), (plt_htoks (ppv_head _ _ _ V)), (ppv_g _ _ _ V), (ppv_n _ _ _ V), (ppv_l _ _ _ V), (plt_jheader j).
+  split.
+  { exists (ppv_head _ _ _ V).
+    exact (conj (ppv_parse _ _ _ V) (conj (ppv_gen _ _ _ V) (conj eq_refl (conj eq_refl (conj (ppv_cmd _ _ _ V)
+          (conj (ppv_ir _ _ _ V) (conj (ppv_nonneg _ _ _ V) (ppv_bounded _ _ _ V)))))))). }
+  split; [rewrite Eo'; exact (ppv_header _ _ _ V)|].
+  assert (Nn : plt_needs_names (plt_ho (ppv_head _ _ _ V)) = true) by (unfold plt_needs_names; rewrite <- Eo', Ef; exact Ev).
+  pose proof (ppv_names _ _ _ V Nn) as En. unfold plt_dflt in En. rewrite <- Eo', Ef in En.
+  cbv zeta. rewrite <- En. rewrite (ppv_form _ _ _ V) in Et, El, RB. cbn [numvar constraints] in El, RB.
+  split; [exact Et|]. split; [exact El|]. exact RB.
+Qed.
+
+(* without -q, without the new options: the bytes are the header followed by the formula, graph sub-commands included *)
+Theorem cnfgen_tex_plain version argv t o : cnfgen_main_tex version argv = POut t ->
+  plt_cnf_opts argv = Some o -> plt_format o <> FmtLatex -> plt_varnames o = false ->
+  exists name toks g ts n0 n F hh,
+    plt_cnf_run argv name toks g ts n0 n F /\
+    plt_header_choice (plt_quiet o) (option_map (fun d => plt_header version argv d ts) (plt_fdesc name toks g)) = Some hh /\
+    t = pl_write (plt_is_opb (plt_format o)) hh n F /\
+    (printable n -> printable (len F) -> pl_reads_back (plt_is_opb (plt_format o)) t n F).
+Proof.
+  unfold cnfgen_main_tex. intros H Eo Ef Ev. destruct (plt_emit_out_job _ _ H) as (j & Ej). rewrite Ej in H.
+  pose proof (plt_cnf_job_view _ _ _ Ej) as V. pose proof (plt_cnf_opts_view _ _ _ V o Eo) as Eo'.
+  assert (Nn : plt_needs_names (plt_jo j) = false).
+  { rewrite (pcv_opts _ _ _ V), <- Eo'. unfold plt_needs_names. destruct (plt_format o); try exact Ev. now contradiction Ef. }
+  pose proof (plt_emit_plain j t H Nn) as P. rewrite (pcv_form _ _ _ V), (pcv_opts _ _ _ V), <- Eo' in P.
+  destruct (plt_cnf_view_run _ _ _ V) as (n0 & R & _).
+  exists (plt_hname (pcv_head _ _ _ V)), (plt_htoks (pcv_head _ _ _ V)), (pcv_g _ _ _ V), (pcv_ts _ _ _ V), n0, (pcv_n _ _ _ V), (pcv_F _ _ _ V), (plt_jheader j).
+  split; [exact R|]. split; [rewrite Eo'; exact (pcv_header _ _ _ V)|]. split; [exact P|].
+  intros P1 P2. rewrite P. apply pl_write_reads_back; try assumption; [exact (pcv_nonneg _ _ _ V)|exact (pcv_range _ _ _ V)].
+Qed.
